@@ -18,3 +18,5 @@ open RV.C19
 #print axioms history_separation_witness
 #print axioms exShared_own_wf
 #print axioms shared_tail_witness
+#print axioms disjoint_second_keeps_list_partial
+#print axioms disjoint_second_keeps_list_witness
